@@ -146,6 +146,13 @@ where
     }
 
     fn lock(&self) -> MutexGuard<'_, Vec<Bump<A, S>>> {
+        #[cfg(bump_scope_verif)]
+        #[allow(unreachable_code)]
+        {
+            let guard = self.bumps.lock().unwrap_or_else(PoisonError::into_inner);
+            crate::verif_hooks::pool_lock_acquired(guard.len());
+            return guard;
+        }
         self.bumps.lock().unwrap_or_else(PoisonError::into_inner)
     }
 }
